@@ -46,7 +46,7 @@ func (c Cfg) parseKey(raw []byte) (uint64, error) {
 			err = errors.New("null key")
 		}
 		return uint64(v + i64bias), err
-	case "str":
+	case "str", "strx":
 		var s string
 		if err := json.Unmarshal(raw, &s); err != nil {
 			return 0, err
@@ -98,6 +98,20 @@ func (c Cfg) parseVal(raw []byte) (uint64, error) {
 		n, err := strconv.ParseUint(s[:i], 10, 64)
 		if err != nil || s != longText(n) {
 			return 0, errors.New("bad long value")
+		}
+		return n, nil
+	case "esc":
+		var s string
+		if err := json.Unmarshal(raw, &s); err != nil {
+			return 0, err
+		}
+		i := strings.IndexByte(s, '-')
+		if i < 0 {
+			return 0, errors.New("bad esc value")
+		}
+		n, err := strconv.ParseUint(s[:i], 10, 64)
+		if err != nil || s != escText(n) {
+			return 0, errors.New("bad esc value")
 		}
 		return n, nil
 	case "iface":
